@@ -32,6 +32,7 @@ type vGen struct {
 	nameComp []bool // whether the RFC allows compressing that name
 	bad    string
 	fixedLabels [][]byte // if set, every name (owner and RDATA) is this name
+	owner       [][]byte // if set, the owner name (not drawn)
 	vals    []uint64 // every symbolic draw, in order
 	like    *vGen    // reuse the draws of this generator ...
 	mut     int      // ... except draw number mut (fresh)
@@ -261,7 +262,9 @@ func refBase64(bs []byte) string {
 			t = append(t, '=')
 		}
 	}
-	return string(t)
+	out := string(t)
+	vNoteBase64(out, bs)
+	return out
 }
 
 const refB32Digits = "0123456789ABCDEFGHIJKLMNOPQRSTUV"
@@ -1073,7 +1076,10 @@ func vBuildRRWith(pfx string, t uint16, setup func(g *vGen)) (RR, []byte, *vGen)
 	} else {
 		rr = new(RFC3597)
 	}
-	owner := g.drawLabels()
+	owner := g.owner
+	if owner == nil {
+		owner = g.drawLabels()
+	}
 	os, esc := refEscapeName(owner)
 	if esc {
 		g.esc = true
